@@ -187,7 +187,7 @@ NOT_APPLICABLE = {
     "C13": "as_str/from_str/serde impls exist only as quote! output of create_locales_enum; verifying sample expansions would quantify over samples",
     "C16": "history property of leptos' reactive runtime; repo code is one-line delegation to RwSignal; a contract would restate leptos' semantics as an axiom",
     "C19": "toml/serde + filesystem; contain_duplicates uses get_or_insert_with on BTreeSet<&Key> (Verus rejects, Kani >400 s for 3 keys)",
-    "C20": "continue inside for over impl Iterator from map closures (Verus rejects), BTreeMap + HashSet<Options> (Kani does not terminate); crate depends on icu_datagen",
+    "C20": "find_used_datakey: `continue` inside `for` (Verus rejects); Kani on the verbatim-extracted walk with stand-ins for BTreeMap/BTreeSet/HashSet does not finish on a depth-3 tree (> 5 min per harness: the recursion over heap-allocated enums is unwound to the bound at every level; probes/c20_kani); crate depends on icu_datagen",
 }
 
 
